@@ -37,6 +37,7 @@ import (
 	"github.com/foxcpp/maddy/internal/testutils"
 	"github.com/foxcpp/maddy/internal/verifshim/vh"
 	"golang.org/x/net/idna"
+	"golang.org/x/text/secure/precis"
 	"golang.org/x/text/unicode/norm"
 )
 
@@ -270,6 +271,75 @@ func ActionWord(s string) string {
 	}
 }
 
+// ActionArgs: the arguments of an action directive as they stand in the configuration: the word
+// the letter stands for followed by the further arguments (`reject 553 5.7.1 "text"`); with the
+// letter x (a directive that is no documented form) the arguments as they are.
+func ActionArgs(letter string, more []string) []string {
+	if letter == "x" {
+		return append([]string{}, more...)
+	}
+	return append([]string{ActionWord(letter)}, more...)
+}
+
+// ActionsDocumented: are all three action directives of the case written in a documented form?
+func (cs *Case) ActionsDocumented() bool {
+	return DocumentedAction(ActionArgs(cs.UA, cs.UArgs)) && DocumentedAction(ActionArgs(cs.NA, cs.NArgs)) && DocumentedAction(ActionArgs(cs.EA, cs.EArgs))
+}
+
+// DocumentedAction: is the argument list one of the documented forms — `ignore`, `reject`,
+// `quarantine`, `reject|quarantine <code> [<enhanced code> [<text>]]` with a 4xx/5xx code, an
+// enhanced code of class 4 or 5 and a non-empty text?  (Written from the reference documentation;
+// used for the statistics only.)
+func DocumentedAction(args []string) bool {
+	num := func(s string) (int, bool) {
+		if s == "" || len(s) > 6 {
+			return 0, false
+		}
+		n := 0
+		for _, ch := range s {
+			if ch < '0' || ch > '9' {
+				return 0, false
+			}
+			n = n*10 + int(ch-'0')
+		}
+		return n, true
+	}
+	if len(args) == 0 {
+		return false
+	}
+	switch args[0] {
+	case "ignore":
+		return len(args) == 1
+	case "reject", "quarantine":
+	default:
+		return false
+	}
+	if len(args) > 4 {
+		return false
+	}
+	if len(args) >= 2 {
+		if c, ok := num(args[1]); !ok || (c/100 != 4 && c/100 != 5) {
+			return false
+		}
+	}
+	if len(args) >= 3 {
+		ps := strings.Split(args[2], ".")
+		if len(ps) != 3 {
+			return false
+		}
+		for i, x := range ps {
+			n, ok := num(x)
+			if !ok || (i == 0 && n != 4 && n != 5) {
+				return false
+			}
+		}
+	}
+	if len(args) == 4 && args[3] == "" {
+		return false
+	}
+	return true
+}
+
 // ---- the configuration block of the check, as text
 
 // Bits of Case.Omit: the directive is NOT written in the configuration block (possible only when
@@ -293,13 +363,13 @@ func (cs *Case) Omittable() uint {
 	if cs.CheckHeader {
 		m |= OmCheckHeader
 	}
-	if cs.UA == "r" {
+	if cs.UA == "r" && len(cs.UArgs) == 0 {
 		m |= OmUnauth
 	}
-	if cs.NA == "r" {
+	if cs.NA == "r" && len(cs.NArgs) == 0 {
 		m |= OmNoMatch
 	}
-	if cs.EA == "r" {
+	if cs.EA == "r" && len(cs.EArgs) == 0 {
 		m |= OmErr
 	}
 	if cs.AuthNorm == "auto" {
@@ -332,13 +402,16 @@ func (cs *Case) Directives() []config.Node {
 	plain := func(name string, arg string) func() config.Node {
 		return func() config.Node { return config.Node{Name: name, Args: []string{arg}} }
 	}
+	action := func(name, letter string, more []string) func() config.Node {
+		return func() config.Node { return config.Node{Name: name, Args: ActionArgs(letter, more)} }
+	}
 	all := []dir{
 		{OmCheckHeader, plain("check_header", yn)},
 		{OmPrep, func() config.Node { return cs.Prep.ConfigNode("prepare_email") }},
 		{OmU2E, func() config.Node { return cs.U2E.ConfigNode("user_to_email") }},
-		{OmUnauth, plain("unauth_action", ActionWord(cs.UA))},
-		{OmNoMatch, plain("no_match_action", ActionWord(cs.NA))},
-		{OmErr, plain("err_action", ActionWord(cs.EA))},
+		{OmUnauth, action("unauth_action", cs.UA, cs.UArgs)},
+		{OmNoMatch, action("no_match_action", cs.NA, cs.NArgs)},
+		{OmErr, action("err_action", cs.EA, cs.EArgs)},
 		{OmAuthNorm, plain("auth_normalize", cs.AuthNorm)},
 		{OmFromNorm, plain("from_normalize", cs.FromNorm)},
 	}
@@ -474,7 +547,9 @@ func (a Addr) String() string { return a.Local + "@" + a.Domain }
 
 type Case struct {
 	CheckHeader        bool
-	UA, NA, EA         string // r q i
+	UA, NA, EA         string // r q i — or x: a directive that is no documented form (its whole argument list is in …Args)
+	// what follows the action word in the configuration: nothing, or <code> [<enhanced code> [<text>]]
+	UArgs, NArgs, EArgs []string
 	AuthNorm, FromNorm string // names in authz.NormalizeFuncs
 	Prep, U2E          Tab
 	Conn               bool
@@ -539,6 +614,7 @@ func OpLine(cs *Case, r *Run) string {
 		vh.HexRunes(cs.User), vh.HexRunes(cs.MailFrom))
 	fmt.Fprintf(&b, " | N %s %s", cs.AuthNorm, cs.FromNorm)
 	b.WriteString(cs.omitGroup())
+	b.WriteString(cs.actGroups())
 	b.WriteString(cs.Prep.groups("p"))
 	b.WriteString(cs.U2E.groups("u"))
 	fnIn := map[string]bool{cs.MailFrom: true}
@@ -605,9 +681,29 @@ func SessionOpLine(cs *Case) string {
 		vh.HexRunes(cs.User), vh.HexRunes(cs.MailFrom))
 	fmt.Fprintf(&b, " | N %s %s", cs.AuthNorm, cs.FromNorm)
 	b.WriteString(cs.omitGroup())
+	b.WriteString(cs.actGroups())
 	b.WriteString(cs.Prep.groups("p"))
 	b.WriteString(cs.U2E.groups("u"))
 	b.WriteString(replayTail(cs))
+	return b.String()
+}
+
+// actGroups: ` | AU <arg>*` … — what follows the action word of each action directive (only when
+// there is something, or the directive is no documented form at all).
+func (cs *Case) actGroups() string {
+	var b strings.Builder
+	for _, a := range []struct {
+		tag, letter string
+		args        []string
+	}{{"AU", cs.UA, cs.UArgs}, {"AN", cs.NA, cs.NArgs}, {"AE", cs.EA, cs.EArgs}} {
+		if len(a.args) == 0 && a.letter != "x" {
+			continue
+		}
+		b.WriteString(" | " + a.tag)
+		for _, x := range a.args {
+			b.WriteString(" " + vh.HexRunes(x))
+		}
+	}
 	return b.String()
 }
 
@@ -643,6 +739,19 @@ func ParseOp(op string) (*Case, string, error) {
 			m, _ := strconv.ParseUint(t[1], 10, 32)
 			cs.Omit = uint(m)
 			cs.Order, _ = strconv.ParseUint(t[2], 10, 64)
+		case "AU", "AN", "AE":
+			args := []string{}
+			for _, x := range t[1:] {
+				args = append(args, vh.UnhexRunes(x))
+			}
+			switch t[0] {
+			case "AU":
+				cs.UArgs = args
+			case "AN":
+				cs.NArgs = args
+			default:
+				cs.EArgs = args
+			}
 		case "P", "U":
 			tab := &cs.Prep
 			if t[0] == "U" {
@@ -694,6 +803,219 @@ func ParseOp(op string) (*Case, string, error) {
 		return nil, "", fmt.Errorf("bad norm")
 	}
 	return cs, head[1], nil
+}
+
+// ---------------------------------------------------------------- reference normalisation (monitor)
+
+// RefNorm: what the configured normalisation setting makes of a string, computed here from the
+// documentation of the settings with the Unicode libraries directly (PRECIS profiles, IDNA, NFC) —
+// not through authz.NormalizeFuncs / framework/address / framework/dns, which are under test.
+//
+//	noop                    the string itself
+//	casefold                lower case
+//	precis_casefold         PRECIS UsernameCaseMapped
+//	precis                  PRECIS UsernameCasePreserved
+//	precis_casefold_email   local part: UsernameCaseMapped; domain: U-labels, NFC, lower case
+//	precis_email            local part: UsernameCasePreserved; domain: the same
+//	auto                    precis_casefold_email for a valid address, precis_casefold otherwise
+//
+// ok = false: the setting refuses the string.  known = false: the reference does not decide (auto
+// on a string whose validity as an address takes the full RFC 5321 grammar to decide); the caller
+// falls back to the coarse spelling equivalence.
+func RefNorm(name, s string) (out string, ok, known bool) {
+	profile := func(p *precis.Profile, v string) (string, bool, bool) {
+		o, err := p.CompareKey(v)
+		return o, err == nil, true
+	}
+	switch name {
+	case "noop":
+		return s, true, true
+	case "casefold":
+		return strings.Map(unicode.ToLower, s), true, true
+	case "precis_casefold":
+		return profile(precis.UsernameCaseMapped, s)
+	case "precis":
+		return profile(precis.UsernameCasePreserved, s)
+	case "precis_casefold_email":
+		o, ok := refEmail(s, precis.UsernameCaseMapped)
+		return o, ok, true
+	case "precis_email":
+		o, ok := refEmail(s, precis.UsernameCasePreserved)
+		return o, ok, true
+	case "auto":
+		switch refAddressClass(s) {
+		case 1:
+			o, ok := refEmail(s, precis.UsernameCaseMapped)
+			return o, ok, true
+		case 0:
+			return profile(precis.UsernameCaseMapped, s)
+		}
+		return "", false, false
+	}
+	return "", false, false
+}
+
+// refSplit: local part and domain of an address: the parts around the last at-sign, both
+// non-empty; the bare postmaster (any letter case) has no domain.
+func refSplit(s string) (local, domain string, ok bool) {
+	if strings.EqualFold(s, "postmaster") {
+		return s, "", true
+	}
+	i := strings.LastIndexByte(s, '@')
+	if i <= 0 || i == len(s)-1 {
+		return "", "", false
+	}
+	return s[:i], s[i+1:], true
+}
+
+// refDomain: the comparison form of a domain: A-labels (prefix in any letter case) to U-labels,
+// NFC, lower case, without the trailing dot.
+func refDomain(d string) (string, bool) {
+	labels := strings.Split(d, ".")
+	for i, l := range labels {
+		if len(l) >= 4 && strings.EqualFold(l[:4], "xn--") {
+			labels[i] = strings.Map(func(ch rune) rune {
+				if ch >= 'A' && ch <= 'Z' {
+					return ch + 32
+				}
+				return ch
+			}, l)
+		}
+	}
+	u, err := idna.ToUnicode(strings.Join(labels, "."))
+	if err != nil {
+		return "", false
+	}
+	return strings.TrimSuffix(strings.ToLower(norm.NFC.String(u)), "."), true
+}
+
+func refEmail(s string, p *precis.Profile) (string, bool) {
+	l, d, ok := refSplit(s)
+	if !ok {
+		return "", false
+	}
+	l, err := p.CompareKey(l)
+	if err != nil {
+		return "", false
+	}
+	d, ok = refDomain(d)
+	if !ok {
+		return "", false
+	}
+	return l + "@" + d, true
+}
+
+// refAddressClass: 1 = plainly a valid address (dot-atom-like local part of letters, digits, the
+// RFC 5322 atext specials and non-ASCII; domain of non-empty LDH / non-ASCII labels that has an
+// A-label form with labels of at most 63 octets), 0 = plainly not an address (no at-sign and not
+// postmaster; an empty half), -1 = undecided here (quoted local parts, other characters, dots at
+// the ends of the domain, very long strings).
+func refAddressClass(s string) int {
+	if len(s) > 250 {
+		return -1
+	}
+	l, d, ok := refSplit(s)
+	if !ok {
+		return 0
+	}
+	if d == "" {
+		return 1 // postmaster
+	}
+	for _, ch := range l {
+		switch {
+		case ch >= 'a' && ch <= 'z', ch >= 'A' && ch <= 'Z', ch >= '0' && ch <= '9', ch > 0x7f && ch != utf8Error:
+		case strings.ContainsRune("!#$%&'*+-/=?^_`{|}~.", ch):
+		default:
+			return -1
+		}
+	}
+	for _, lab := range strings.Split(d, ".") {
+		if lab == "" {
+			return -1
+		}
+		for _, ch := range lab {
+			switch {
+			case ch >= 'a' && ch <= 'z', ch >= 'A' && ch <= 'Z', ch >= '0' && ch <= '9', ch == '-', ch > 0x7f && ch != utf8Error:
+			default:
+				return -1
+			}
+		}
+	}
+	if _, ok := refDomain(d); !ok {
+		return -1
+	}
+	a, err := idna.ToASCII(d)
+	if err != nil {
+		return -1
+	}
+	for _, lab := range strings.Split(a, ".") {
+		if len(lab) > 63 {
+			return -1
+		}
+	}
+	return 1
+}
+
+// isHalf: an at-sign with nothing before or nothing after it ("alice@", "@example.org", "@"; also
+// "postmaster@", which is what the e-mail settings make of the bare postmaster): half an address
+// names no mailbox — as an entry it entitles to nothing, as a prepared form nothing covers it but "*".
+func isHalf(s string) bool {
+	i := strings.LastIndexByte(s, '@')
+	return i >= 0 && (i == 0 || i == len(s)-1)
+}
+
+const utf8Error = '\uFFFD'
+
+// refExact: the entitlement of the property, literally: the user's entries are the row of the
+// mapping for the NORMALISED user name; the address is entitled iff its PREPARED form — the
+// configured normalisation of the address, then the prepare_email images if the table has any — is
+// literally an entry, or its domain is literally an entry, or "*" is an entry.  No spelling is
+// folded beyond what the configured normalisation folds: under a case-preserving setting
+// Support@example.org and support@example.org are different mailboxes.
+// known = false: a normalisation result the reference does not decide.
+func refExact(cs *Case, whole string) (entitled bool, how string, known bool) {
+	if cs.U2E.Err || cs.Prep.Err {
+		return false, "", true
+	}
+	nu, ok, known := RefNorm(cs.AuthNorm, cs.User)
+	if !known {
+		return false, "", false
+	}
+	if !ok {
+		return false, "", true
+	}
+	entries, _ := cs.U2E.refValues(nu)
+	na, ok, known := RefNorm(cs.FromNorm, whole)
+	if !known {
+		return false, "", false
+	}
+	if !ok {
+		return false, "", true
+	}
+	prepared, alias := []string{na}, ""
+	if cs.Prep.Kind != "I" {
+		if vals, ok := cs.Prep.refValues(na); ok {
+			prepared, alias = vals, "alias:"
+		}
+	}
+	for _, p := range prepared {
+		dom := ""
+		if l, d, ok := refSplit(p); ok && l != "" {
+			dom = d
+		}
+		for _, e := range entries {
+			switch {
+			case e == "":
+			case e == "*":
+				return true, "exact:" + alias + "star", true
+			case e == p && !isHalf(p):
+				return true, "exact:" + alias + "address", true
+			case dom != "" && e == dom:
+				return true, "exact:" + alias + "domain", true
+			}
+		}
+	}
+	return false, "", true
 }
 
 // ---------------------------------------------------------------- reference entitlement (monitor)
@@ -775,6 +1097,16 @@ func covered(entries []string, whole, domain string, hasDomain bool) string {
 // mapping?  `whole` is the address string; `domain` its domain when hasDomain.  The second
 // result says how ("star", "domain", "address", "alias:…", "" = not entitled).
 func RefEntitled(cs *Case, whole, domain string, hasDomain bool) (bool, string) {
+	// the exact reading: literal comparison of the prepared form (reference normalisation)
+	if ok, how, known := refExact(cs, whole); known {
+		return ok, how
+	}
+	return refCoarse(cs, whole, domain, hasDomain)
+}
+
+// refCoarse: the same with the coarse spelling equivalence, for the strings whose normal form the
+// reference does not decide.
+func refCoarse(cs *Case, whole, domain string, hasDomain bool) (bool, string) {
 	entries := refEntries(cs)
 	if len(entries) == 0 {
 		return false, ""
@@ -820,16 +1152,37 @@ func Monitor(out *vh.Out, cs *Case, r *Run, op string) {
 		}
 		out.Stat("monitor.unauth")
 	}
-	// a refusal is enforced as configured
+	// a refusal is enforced as configured: the documentation gives every refusal its directive —
+	// unauth_action for the unauthenticated client, no_match_action for a sender / author the user is
+	// not entitled to, err_action for everything else (lookup errors, malformed or missing author
+	// fields) — and the WORD of the directive (reject / quarantine / ignore) says what happens, whatever
+	// reply code or text follows it
 	for _, res := range []StageObs{r.Sender, r.Body} {
-		if !res.Pass() && cs.UA == cs.NA && cs.NA == cs.EA {
-			if res.Reject != (cs.UA == "r") || res.Quarantine != (cs.UA == "q") {
-				out.Violation("C15/action-not-applied", op, res.String())
+		if !res.Pass() {
+			act := cs.EA
+			switch res.Reason {
+			case "authRequired":
+				act = cs.UA
+			case "noMatch":
+				act = cs.NA
+			}
+			if strings.HasPrefix(res.Reason, "other(") {
+				act = "" // a refusal the documentation does not know: judged by the uniform rule only
+				if cs.UA == cs.NA && cs.NA == cs.EA {
+					act = cs.UA
+				}
+			}
+			if act != "" && (res.Reject != (act == "r") || res.Quarantine != (act == "q")) {
+				out.Violation("C15/action-not-applied", op, res.String()+" under "+strings.Join(ActionArgs(cs.UA, cs.UArgs), " ")+
+					" / "+strings.Join(ActionArgs(cs.NA, cs.NArgs), " ")+" / "+strings.Join(ActionArgs(cs.EA, cs.EArgs), " "))
 			}
 		}
 		if res.Pass() && (res.Reject || res.Quarantine) {
 			out.Violation("C15/flag-without-reason", op, res.String())
 		}
+	}
+	if cs.User == "" && cs.UA == "q" && !r.Sender.Pass() && !r.Sender.Quarantine {
+		out.Violation("C15/unauthenticated-not-quarantined", op, r.Sender.String())
 	}
 	// A stage lets the message through when it has nothing to say, and also when it does not ask
 	// for rejection although every action is reject (as configured, or by default when the
@@ -859,6 +1212,14 @@ func Monitor(out *vh.Out, cs *Case, r *Run, op string) {
 			out.Stat("monitor.header-pass.ground-truth")
 		}
 		JudgeAuthor(out, cs, from, sender, op, "")
+	}
+	// with quarantine actions a message of a client that is not entitled must carry the flag
+	if allQ := cs.UA == "q" && cs.NA == "q" && cs.EA == "q"; allQ && cs.User != "" {
+		_, d, has := SplitLast(cs.MailFrom)
+		if ok, _ := RefEntitled(cs, cs.MailFrom, d, has); !ok && !r.Sender.Quarantine {
+			out.Violation("C15/not-entitled-not-quarantined", op, fmt.Sprintf("user %q MAIL FROM %q: %s", cs.User, cs.MailFrom, r.Sender.String()))
+		}
+		out.Stat("monitor.all-quarantine")
 	}
 	if allReject && !r.Sender.Reject && !r.Body.Reject {
 		out.Stat("monitor.accepted")
@@ -939,6 +1300,23 @@ func Distribution(out *vh.Out, cs *Case, r *Run) {
 		acts = "mixed"
 	}
 	out.Stat("cfg.actions." + acts)
+	for _, a := range [][]string{ActionArgs(cs.UA, cs.UArgs), ActionArgs(cs.NA, cs.NArgs), ActionArgs(cs.EA, cs.EArgs)} {
+		form := "not-documented"
+		if DocumentedAction(a) {
+			form = fmt.Sprintf("%s+%d", a[0], len(a)-1)
+		}
+		out.Stat("cfg.action-form." + form)
+	}
+	// the reference normalisation against the configured function, on the strings of this case
+	for _, q := range []struct{ name, in string }{{cs.FromNorm, cs.MailFrom}, {cs.AuthNorm, cs.User}} {
+		ro, rok, known := RefNorm(q.name, q.in)
+		if !known {
+			out.Stat("oracle.norm.reference-undecided")
+			continue
+		}
+		o, err := authz.NormalizeFuncs[q.name](q.in)
+		out.Stat("oracle.norm.agrees-with-configured-function." + B01(rok == (err == nil) && (!rok || ro == o)))
+	}
 	out.Stat("cfg.checkheader." + B01(cs.CheckHeader))
 	out.Stat(fmt.Sprintf("hdr.fromfields.%d", len(r.FromVals)))
 	out.Stat(fmt.Sprintf("hdr.senderfields.%d", len(r.SenderVals)))
@@ -1153,6 +1531,21 @@ func normOrSelf(name, s string) string {
 	return s
 }
 
+// GenReplyArgs: what may follow `reject` / `quarantine`: <code> [<enhanced code> [<text>]].
+func GenReplyArgs(r *vh.Rng) []string {
+	args := []string{r.Pick("550", "553", "554", "521", "450", "451", "452", "535", "500", "499")}
+	if r.Chance(65) {
+		// the class of the enhanced code need not be the class of the basic code
+		args = append(args, r.Pick("5.7.1", "5.7.0", "5.7.8", "5.1.0", "5.1.8", "4.7.1", "4.7.0", "4.3.0", "5.0.0", "5.7.27", "4.10.255"))
+		if r.Chance(65) {
+			args = append(args, r.Pick("Not yours", "Sender address rejected: not owned by user", "go away", "5.7.1 is the code",
+				"Authentication required", "Unauthorized use of sender address", "ok", "accepted", "say \"please\"", "nicht erlaubt: Absender gehört dir nicht",
+				"Отказано", "x", "250 OK", "ignore", "quarantine"))
+		}
+	}
+	return args
+}
+
 // GenCase draws one case.  smtpSafe restricts MAIL FROM and the user name to what can travel
 // through a real SMTP dialogue (used by the session harness).
 func GenCase(r *vh.Rng, smtpSafe bool) *Case {
@@ -1162,6 +1555,48 @@ func GenCase(r *vh.Rng, smtpSafe bool) *Case {
 	} else if r.Chance(10) {
 		a := r.Pick("q", "i")
 		cs.UA, cs.NA, cs.EA = a, a, a
+	}
+	// every documented form of the three action directives: the bare word, or reject / quarantine
+	// followed by <code> [<enhanced code> [<text>]]
+	{
+		ar := r.Fork()
+		for _, a := range []struct {
+			letter *string
+			args   *[]string
+		}{{&cs.UA, &cs.UArgs}, {&cs.NA, &cs.NArgs}, {&cs.EA, &cs.EArgs}} {
+			if *a.letter != "i" && ar.Chance(30) {
+				*a.args = GenReplyArgs(ar)
+			}
+			if !smtpSafe && ar.Chance(1) {
+				// not a documented form: the configuration must be refused (or, for `ignore <more>`, means ignore)
+				switch ar.Intn(12) {
+				case 0:
+					*a.letter, *a.args = "x", []string{ar.Pick("drop", "Reject", "REJECT", "rejected", "quarantined", "deny", "", "reject,")}
+				case 1:
+					*a.letter, *a.args = "x", []string{ar.Pick("drop", "Reject", "553"), "553", "5.7.1"}
+				case 2:
+					*a.letter, *a.args = "x", []string{}
+				case 3:
+					*a.letter, *a.args = ar.Pick("r", "q"), []string{ar.Pick("250", "354", "99", "600", "5xx", "abc", "55 3", "")}
+				case 4:
+					*a.letter, *a.args = ar.Pick("r", "q"), []string{"553", ar.Pick("2.7.1", "5.7", "5.7.1.0", "5", "a.b.c", "0.7.1", "5..1", "")}
+				case 5:
+					*a.letter, *a.args = ar.Pick("r", "q"), []string{"553", "5.7.1", ""}
+				case 6:
+					*a.letter, *a.args = ar.Pick("r", "q"), []string{"553", "5.7.1", "Not", "yours"}
+				case 7:
+					*a.letter, *a.args = "i", []string{ar.Pick("553", "now", "")}
+				case 8:
+					*a.letter, *a.args = ar.Pick("r", "q"), []string{"250", "5.7.1", "Fine"}
+				case 9:
+					*a.letter, *a.args = ar.Pick("r", "q"), []string{ar.Pick("400", "499", "500", "599", "0553", "4000")}
+				case 10:
+					*a.letter, *a.args = ar.Pick("r", "q"), []string{"451", ar.Pick("4.0.0", "5.999.999", "4.7.01")}
+				default:
+					*a.letter, *a.args = "x", []string{"ignore ", "reject"}
+				}
+			}
+		}
 	}
 	cs.AuthNorm = NormNames[r.Intn(len(NormNames))]
 	cs.FromNorm = NormNames[r.Intn(len(NormNames))]
@@ -2077,7 +2512,83 @@ func Fixed() []*Case {
 		cs.FromNorm, cs.Prep.Kind = fromNorm, prepKind
 		return cs
 	}
-	return []*Case{
+	var grid []*Case
+	// the documented forms of the action directives x the three refusals: a forged MAIL FROM, a forged
+	// From (own envelope sender), an unauthenticated client, a header without author
+	forms := [][]string{nil, {"553"}, {"550", "5.7.1"}, {"553", "5.7.1", "Not yours"}, {"451", "4.7.1", "Try later"}, {"554", "5.7.0", "ok"}}
+	for fi, form := range forms {
+		for _, word := range []string{"r", "q"} {
+			for k := 0; k < 4; k++ {
+				var cs *Case
+				switch k {
+				case 0:
+					cs = mk("alice@example.org", "bob@example.com", ident, "From: <alice@example.org>\r\n"+rest, [][]Addr{{alice}}, nil)
+				case 1:
+					cs = mk("alice@example.org", "alice@example.org", ident, "From: <bob@example.com>\r\n"+rest, [][]Addr{{bob}}, nil)
+				case 2:
+					cs = mk("", "alice@example.org", ident, "From: <alice@example.org>\r\n"+rest, [][]Addr{{alice}}, nil)
+				default:
+					cs = mk("alice@example.org", "alice@example.org", ident, rest, nil, nil)
+				}
+				cs.UA, cs.NA, cs.EA = word, word, word
+				// the custom reply on all three, or on one of them only
+				switch (fi + k) % 4 {
+				case 0:
+					cs.UArgs, cs.NArgs, cs.EArgs = form, form, form
+				case 1:
+					cs.NArgs = form
+				case 2:
+					cs.UArgs = form
+				default:
+					cs.EArgs, cs.NArgs = form, form
+				}
+				if k == 2 {
+					cs.UArgs = form
+				}
+				if k == 3 {
+					cs.EArgs = form
+				}
+				grid = append(grid, cs)
+			}
+		}
+	}
+	// the normalisation settings x spellings that differ from the entry in the letter case of the local
+	// part, in the spelling of the domain (letter case, A-label / U-label) and in Unicode normalisation:
+	// which of them are the entry's mailbox is for the configured setting to say
+	for _, nn := range []string{"auto", "precis_casefold_email", "precis_email", "precis", "casefold", "noop"} {
+		for k, a := range []Addr{{"Support", "example.org"}, {"support", "EXAMPLE.org"}, {"support", "xn--mnchen-3ya.de"}, {"SUPPORT", "XN--MNCHEN-3YA.DE"},
+			{"rene\u0301", "example.org"}, {"support", "mu\u0308nchen.de"}, {"support", "example.org"}, {"ｓupport", "example.org"}} {
+			var t Tab
+			t.Kind = "S"
+			t.Add("alice", "support@example.org", "support@münchen.de", "rené@example.org")
+			if k%2 == 1 {
+				// the same with domain entries
+				t = Tab{Kind: "S"}
+				t.Add("alice", "example.org", "münchen.de")
+			}
+			cs := mk("alice", a.String(), t, "From: <"+a.String()+">\r\n"+rest, [][]Addr{{a}}, nil)
+			cs.FromNorm = nn
+			grid = append(grid, cs)
+			// capital letters in the entry, small ones in the address
+			var t2 Tab
+			t2.Kind = "S"
+			t2.Add("alice", "Support@Example.ORG", "XN--MNCHEN-3YA.DE")
+			b := Addr{strings.ToLower(a.Local), a.Domain}
+			cs2 := mk("alice", b.String(), t2, "From: <"+b.String()+">\r\n"+rest, [][]Addr{{b}}, nil)
+			cs2.FromNorm = nn
+			if k < 4 {
+				grid = append(grid, cs2)
+			}
+		}
+		// the user name: entries keyed by the lower-case name, the client logs in as Alice
+		var t Tab
+		t.Kind = "S"
+		t.Add("alice", "alice@example.org")
+		cs := mk("Alice", "alice@example.org", t, "From: <alice@example.org>\r\n"+rest, [][]Addr{{alice}}, nil)
+		cs.AuthNorm = nn
+		grid = append(grid, cs)
+	}
+	return append(grid, []*Case{
 		odd("backup", "postmaster", "noop", "I", ""),
 		odd("backup", "postmaster", "auto", "I", ""),
 		odd("backup", "POSTMASTER", "casefold", "I", "alice@example.org", ""),
@@ -2115,7 +2626,7 @@ func Fixed() []*Case {
 		mk("alice", "alice@example.org", st, "From: team: x@corp.example.net;\r\n"+rest, [][]Addr{{{"x", "corp.example.net"}}}, nil),
 		mk("alice", "ALICE@EXAMPLE.ORG", st, rest, nil, nil),
 		mk("", "alice@example.org", ident, "From: <alice@example.org>\r\n"+rest, [][]Addr{{alice}}, nil),
-	}
+	}...)
 }
 
 // ---------------------------------------------------------------- histories of an entitlement file
@@ -2162,7 +2673,7 @@ func GenHistory(r *vh.Rng) *History {
 	var base *Case
 	for {
 		base = GenCase(r.Fork(), false)
-		if !base.Conn || base.User == "" {
+		if !base.Conn || base.User == "" || !base.ActionsDocumented() {
 			continue
 		}
 		t := &base.U2E
@@ -2174,7 +2685,7 @@ func GenHistory(r *vh.Rng) *History {
 		}
 	}
 	if r.Chance(75) {
-		base.UA, base.NA, base.EA = "r", "r", "r"
+		base.UA, base.NA, base.EA = "r", "r", "r" // (a custom reply stays)
 	}
 	h := &History{Base: base, Present: !r.Chance(12)}
 	nu := normOrSelf(base.AuthNorm, base.User)
@@ -2363,6 +2874,7 @@ func (h *History) OpLine(upto int, q *Probe) string {
 		vh.HexRunes(cs.User), vh.HexRunes(cs.MailFrom))
 	fmt.Fprintf(&b, " | N %s %s", cs.AuthNorm, cs.FromNorm)
 	b.WriteString(cs.omitGroup())
+	b.WriteString(cs.actGroups())
 	b.WriteString(cs.Prep.groups("p"))
 	b.WriteString(cs.U2E.groups("u"))
 	b.WriteString(replayTail(cs))
